@@ -100,6 +100,16 @@ def gen_case(seed, tier, index=0):
         symlinks.append({"path": "dangling.py", "target": "nonexistent-target"})
     if rng.chance(0.3):
         symlinks.append({"path": "LICENSES/linked.txt", "target": "@S/secret.txt"})
+    if rng.chance(0.12):
+        # a .license companion that is itself a symlink: to a file outside the project, to nothing (outside), or to a
+        # shared companion inside the project
+        for cand in rng.sample([{"path": "src/b.c.license", "target": "@S/secret.txt"},
+                                {"path": "docs/d.md.license", "target": "@S/not-there-yet.txt"},
+                                {"path": "src/a.py.license", "target": "../docs/shared.license"}], rng.randint(1, 2)):
+            if not any(f["path"] == cand["path"] for f in files) and any(f["path"] == cand["path"][:-len(".license")] for f in files):
+                symlinks.append(cand)
+                if cand["target"].endswith("shared.license") and not any(f["path"] == "docs/shared.license" for f in files):
+                    files.append({"path": "docs/shared.license", "content": "SPDX-FileCopyrightText: 2015 Shared Holder\n"})
     world = {"files": files, "symlinks": symlinks, "sentinel": sentinel, "dirs": empty_dirs,
              "home": [{"path": ".gitconfig-decoy", "content": "[user]\n"}, {"path": ".config/reuse/x", "content": "x\n"}]}
     git = rng.chance(0.6)
@@ -344,7 +354,17 @@ def oracle(case, results):
                 elif recursive:
                     for f in _covered_model(tree, links, ignored, n):
                         allowed |= {f, f + ".license"}
+        # what the .license companions of the files this command may write point to, when they are symlinks
+        via_link = set()
+        for l in world.get("symlinks", []):
+            if l["path"].endswith(".license") and l["path"] in allowed:
+                t = l["target"]
+                via_link.add(t if t.startswith("@S/") else posixpath.normpath(posixpath.join(posixpath.dirname(l["path"]), t)))
         for label, d in sorted(changed.items()):
+            if label in via_link and cmd == "annotate":
+                vs.append({"sig": "C15/annotate/wrote-through-symlinked-dot-license",
+                           "detail": f"{label}: {d.get('before')} -> {d.get('after')} argv={argv}"})
+                continue
             if label.startswith("@S/"):
                 vs.append({"sig": f"C15/{cmd}/sentinel-changed", "detail": f"{label}: {d.get('before')} -> {d.get('after')} argv={argv}"})
                 continue
